@@ -27,11 +27,14 @@ MODULES = ['tenpy.algorithms.dmrg', 'tenpy.algorithms.mps_common', 'tenpy.algori
 # finite and infinite chains; observed at E, psi of run())
 _PLOT = 'plotting helper (matplotlib), no influence on the state or the energy returned by run()'
 _VAR = 'variational MPS compression / MPO application (not a ground-state search; the property is about DMRG and VUMPS)'
+_RES = 'resuming an interrupted run from a checkpoint (resume_data with sweeps / sweep_stats / mixer / orthogonal_to) is the subject of C18'
 _SEG = "segment boundary conditions are outside the quantifier ('finite chains of 3-10 sites and infinite chains')"
 EXCLUDED = {
     'DMRGEngine.plot_update_stats': _PLOT,
     'DMRGEngine.plot_sweep_stats': _PLOT,
     'DMRGEngine.update_segment_boundaries': _SEG,
+    'OneSiteH.from_LP_W0_RP': 'constructor from explicit LP / W / RP: used by plane-wave excitations and ground_state_search helpers, not by the DMRG / VUMPS engines',
+    'ZeroSiteH.from_LP_RP': 'constructor from explicit LP / RP: used by plane-wave excitations and ground_state_search helpers, not by the DMRG / VUMPS engines',
     'VariationalCompression': _VAR,
     'VariationalApplyMPO': _VAR,
     'QRBasedVariationalApplyMPO': _VAR,
@@ -83,7 +86,7 @@ EXCLUDED_BRANCHES = [
     ('OneSiteH.from_LP_W0_RP', 'combine', 'raises NotImplementedError by design'),
     ('MPOEnvironment.init_first_LP_last_RP', 'not self.chinfo.trivial_shift', 'shift symmetry (C19 / C20), no model of the quantifier has it'),
     ('MPOEnvironment.init_first_LP_last_RP', "force_init_method is None", 'shift symmetry / explicit None only; the documented values iter and TM are drawn'),
-    ('MPOEnvironment.init_first_LP_last_RP', "force_init_method == 'iter'", None),
+    ('MPOEnvironment.init_first_LP_last_RP', "force_init_method == 'iter'", 'inside the shift-symmetry block (the second occurrence, the selection of the method, is reached)'),
     ('MPOEnvironment.init_first_LP_last_RP', 'max(self.ket.chi) <= 150', 'force_init_method=None only'),
     ('MPOEnvironment.init_first_LP_last_RP', 'else', 'force_init_method=None / invalid value only'),
     ('MPOEnvironment.init_LP', 'IdL is None', 'RuntimeError guard: every MPO built by a model has IdL / IdR'),
@@ -93,6 +96,28 @@ EXCLUDED_BRANCHES = [
     ('BaseEnvironment.get_LP', 'else', "ValueError guard 'No left part in the system' (never for a consistent environment)"),
     ('BaseEnvironment.get_RP', 'else', "ValueError guard 'No right part in the system' (never for a consistent environment)"),
     ('BaseEnvironment.get_initialization_data', 'include_bra', 'include_bra: not used by the engines'),
+    ('DMRGEngine.reset_stats', "'sweep_stats' in resume_data", _RES),
+    ('DMRGEngine.reset_stats', "resume_data['sweep_stats']", _RES),
+    ('Sweep.reset_stats', "'sweeps' in resume_data", _RES),
+    ('Sweep.reset_stats', 'len(done) > 0', _RES + ' (chi_list entries before the sweep counter of the checkpoint)'),
+    ('Sweep.get_resume_data', 'not sequential_simulations', _RES + '; get_resume_data(sequential_simulations=True) is exercised (resume_seq features)'),
+    ('Sweep.get_resume_data', 'self.mixer is None', _RES),
+    ('Sweep.get_resume_data', 'else', _RES),
+    ('Sweep.get_resume_data', 'len(self.ortho_to_envs) > 0', _RES),
+    ('Sweep.get_resume_data', "self.psi.bc == 'finite'", _RES),
+    ('Sweep._init_ortho_to_envs', "'orthogonal_to' in resume_data", _RES),
+    ('SingleSiteDMRGEngine.mixed_svd', 'isinstance(S, npc.Array)', 'a mixer with can_decompose_1site that returns a 2D S: none of the mixers of tenpy does (SubspaceExpansion returns the singular values)'),
+    ('Mixer.determine_qtotal_L_R', 'qtotal_LR is None', 'the engines always pass both qtotal (only direct calls of the mixer use the default)'),
+    ('Mixer.determine_qtotal_L_R', 'qtotal_L is None', 'the engines always pass both qtotal (only direct calls of the mixer use the default)'),
+    ('Mixer.determine_qtotal_L_R', 'qtotal_R is None', 'the engines always pass both qtotal (only direct calls of the mixer use the default)'),
+    ('DensityMatrixMixer.mix_rho', 'IdL is None', 'MPO without IdL / IdR on an inner bond: every MPO built by a model of C10 has them'),
+    ('DensityMatrixMixer.mix_rho', 'IdR is None', 'MPO without IdL / IdR on an inner bond: every MPO built by a model of C10 has them'),
+    ('SingleSiteVUMPSEngine.__init__', 'self.mixer is not None', 'dead code: the mixer is only activated in run() (pre_run_initialize), it is None in __init__'),
+    ('TwoSiteVUMPSEngine.__init__', 'isinstance(self.mixer, DensityMatrixMixer)', 'dead code: the mixer is only activated in run() (pre_run_initialize), it is None in __init__'),
+    ('BaseEnvironment.init_LP', 'for j in range(i - start_env_sites, i)', 'MPSEnvironment with start_env_sites > 0 (overlaps of infinite MPS): orthogonal_to is finite only'),
+    ('BaseEnvironment.init_RP', 'for j in range(i + start_env_sites, i, -1)', 'MPSEnvironment with start_env_sites > 0 (overlaps of infinite MPS): orthogonal_to is finite only'),
+    ('BaseEnvironment.get_initialization_data', 'include_ket', 'include_ket: resume data of orthogonal_to environments of segment MPS only'),
+    ('BaseEnvironment._full_contraction_LP_RP', 'i0 + 1 == self.L', 'the engines call full_contraction(i) with i <= L - 2 only (E_trunc of a bond update)'),
     ('DMRGEngine.diag', 'else', 'ValueError for an unknown diag_method: drawn (invalid-option stratum) when reached'),
     ('Mixer.mix_and_decompose_2site', 'else', 'ValueError guard (mix_left = mix_right = False is never requested by an engine)'),
     ('VUMPSEngine.__init__', 'not isinstance(psi, UniformMPS)', None),
@@ -168,8 +193,10 @@ def enumerate_items(repo):
                 if start <= l0 <= node.end_lineno:
                     lines |= {l for l in ls if first <= l <= node.end_lineno}
             public = not node.name.startswith('_') or (node.name.startswith('__') and node.name.endswith('__'))
+            body = [b for b in node.body if not (isinstance(b, ast.Expr) and isinstance(getattr(b, 'value', None), ast.Constant))]
+            abstract = all(isinstance(b, ast.Pass) or (isinstance(b, ast.Raise) and 'NotImplementedError' in ast.unparse(b)) for b in body)
             items.append({'file': rel, 'name': name, 'owner': owner, 'public': public, 'first': first, 'last': node.end_lineno,
-                          'lines': lines, 'branches': _branches(node)})
+                          'lines': lines, 'branches': _branches(node), 'abstract': abstract})
         for node in tree.body:
             if isinstance(node, (ast.FunctionDef, ast.AsyncFunctionDef)) and classes is None:
                 add_fn(node, '')
@@ -216,8 +243,8 @@ def build_table(repo, hits_per_process):
         hit = {l for l in it['lines'] if l in d}
         reached = bool(hit)
         reason = _excluded_fn(it['name'], it['owner'])
-        if not it['lines'] and not reason:
-            reason = 'no executable statement (abstract method / docstring only)'
+        if (not it['lines'] or it['abstract']) and not reason:
+            reason = 'abstract prototype (body is `...` / pass / raise NotImplementedError)'
         status = 'reached' if reached else ('excluded' if reason else 'not reached')
         n_fun[status] += 1
         row = {'status': status, 'lines': '%d/%d' % (len(hit), len(it['lines'])), 'processes': max([d[l] for l in hit], default=0)}
